@@ -13,14 +13,14 @@ from mc.runner import Stats
 ID = "C36"
 LEVEL = "model_checking"
 TECHNIQUE = "explicit-state BFS over real objects with a reference flow-control model"
-RULE = ("BFS over histories of {write(1|3|5), writeExtended(type 1|2, 1|3 bytes), loseConnection, deliver head A->B, "
-        "deliver head B->A, receiver adjustWindow(1|2)} on a real SSHConnection pair with one open channel, for every "
+RULE = ("BFS over histories of {write(1|3|5), writeExtended(type 1|2, 1|3 bytes), arm a producer that writes 2 bytes from "
+        "startWriting(), loseConnection, receiver loseConnection, deliver head A->B, deliver head B->A, receiver adjustWindow(1|2)} on a real SSHConnection pair with one open channel, for every "
         "receiver window in {1,2,3,4,5} x receiver max packet in {1,2,3}; after every transition the messages the sender "
         "emitted are checked against a reference window (initial window + adjustments delivered - bytes sent) and the "
         "peer's max packet, streams against what was written, CLOSE against unsent data, and every delivered conforming "
         "data message must reach the receiving channel. non-trivial = distinct canonical states in which data was "
         "buffered, split into several packets, a window adjustment was in flight or a close was pending")
-BOUNDS = {"quick": "depth 8, <= 3 writes, <= 1 manual adjustment (2 for receiver window 1), 1 close",
+BOUNDS = {"quick": "depth 8, writeExtended limited to (type 1, 3 bytes) and (type 2, 1 byte), <= 3 writes, <= 1 manual adjustment (2 for receiver window 1), 1 close",
           "thorough": "depth 10, <= 4 writes, <= 2 manual adjustments, 1 close"}
 ASSUMPTIONS = [
     "the SSH transport below the connection service is replaced by a FIFO per direction (in-order, loss-free delivery, "
@@ -39,6 +39,7 @@ MIN = {"quick": {"states": 158000, "nontrivial": 117000, "outcomes": 5},
 WINDOWS = [1, 2, 3, 4, 5]
 MAXPACKETS = [1, 2, 3]
 WRITE_EVENTS = [("w", 1), ("w", 3), ("w", 5), ("x", 1, 1), ("x", 1, 3), ("x", 2, 1), ("x", 2, 3)]
+QUICK_WRITE_EVENTS = [("w", 1), ("w", 3), ("w", 5), ("x", 1, 3), ("x", 2, 1)]
 ADJ_EVENTS = [("adj", 1), ("adj", 2)]
 
 MSG_WINDOW_ADJUST, MSG_DATA, MSG_EXT, MSG_EOF, MSG_CLOSE = 93, 94, 95, 96, 97
@@ -101,6 +102,14 @@ def classes():
                 self.rec = {"d": b"", "e1": b"", "e2": b""}
                 self.other = []
                 self.nrec = 0
+                self.armed = 0
+                self.on_start = None
+
+            def startWriting(self):
+                # a push producer that writes as soon as it is resumed (startWriting is the documented resume hint)
+                if self.armed and self.on_start is not None:
+                    k, self.armed = self.armed, 0
+                    self.on_start(k)
 
             def dataReceived(self, data):
                 self.rec["d"] += data
@@ -144,6 +153,8 @@ class St:
         self.headAB = self.scanAB = 1
         self.headBA = self.scanBA = 1
         self.chB = self.B.channels[0]
+        self.chA.on_start = self.producer_write
+        self.b_close_requested = False
         self.bad = []
         self.flags = set()
         self.nevents = 0
@@ -158,9 +169,17 @@ class St:
         self.close_requested = False
         self.close_emitted = False
         self.b_close_received = False
+        self.a_close_received = False
+        self.trigger = ""
         if self.chA.remoteWindowLeft != win or self.chA.remoteMaxPacket != maxp:
             self.bad.append(("setup:open-confirmation-window", "channel A sees window %r max packet %r, B advertised %r/%r" % (
                 self.chA.remoteWindowLeft, self.chA.remoteMaxPacket, win, maxp)))
+
+    def producer_write(self, k):
+        data = stream_bytes(0, len(self.written["d"]), k)
+        self.written["d"] += data
+        self.flags.add("producer-wrote-on-resume")
+        self.chA.write(data)
 
     # -- observation of newly emitted messages ------------------------------------------------------
     def scan(self):
@@ -196,14 +215,17 @@ class St:
                 if self.close_emitted:
                     self.bad.append(("sender:close-twice", "second CHANNEL_CLOSE"))
                 self.close_emitted = True
-                if not self.close_requested and not self.b_close_sent():
-                    self.bad.append(("sender:unrequested-close", "CHANNEL_CLOSE without loseConnection()"))
+                if not self.close_requested and not self.a_close_received:
+                    self.bad.append(("sender:unrequested-close", "CHANNEL_CLOSE without loseConnection() or a peer close"))
                 unsent = {k: len(self.written[k]) - len(self.emitted[k]) for k in self.written
                           if len(self.written[k]) != len(self.emitted[k])}
                 if unsent:
                     kinds = "+".join(sorted(set("normal" if k == "d" else "extended" for k in unsent)))
                     pre = getattr(self, "pre_unsent", {})
-                    if pre.get("e1") and pre.get("e2"):
+                    trig = getattr(self, "trigger", "")
+                    if trig == "peer-close":
+                        kinds += ":on-peer-close"
+                    elif trig == "window-adjust" and pre.get("e1") and pre.get("e2"):
                         kinds += ":two-extended-types-buffered"
                     self.bad.append(("sender:close-before-buffered-data:%s" % kinds,
                                      "CHANNEL_CLOSE sent while %r bytes were still buffered" % (unsent,)))
@@ -215,7 +237,7 @@ class St:
             mt, payload = self.logBA[self.scanBA]
             self.scanBA += 1
             if mt == MSG_CLOSE:
-                if not self.b_close_received:
+                if not self.b_close_received and not self.b_close_requested:
                     self.bad.append(("receiver:refused-conforming-peer",
                                      "B sent CHANNEL_CLOSE although A never exceeded window %d / max packet %d" % (self.win, self.maxp)))
             elif mt == MSG_WINDOW_ADJUST:
@@ -245,6 +267,7 @@ def apply(st, ev):
     op = ev[0]
     st.nevents += 1
     st.pre_unsent = {k: len(st.written[k]) - len(st.emitted[k]) for k in st.written}
+    st.trigger = ""
     if op == "w":
         n = ev[1]
         data = stream_bytes(0, len(st.written["d"]), n)
@@ -261,6 +284,12 @@ def apply(st, ev):
     elif op == "close":
         st.close_requested = True
         st.chA.loseConnection()
+    elif op == "arm":
+        st.nwrites += 1
+        st.chA.armed = ev[1]
+    elif op == "bclose":
+        st.b_close_requested = True
+        st.chB.loseConnection()
     elif op == "adj":
         st.nadj += 1
         st.B.adjustWindow(st.chB, ev[1])
@@ -291,6 +320,11 @@ def apply(st, ev):
             (n,) = struct.unpack(">L", payload[4:8])
             st.ref_window += n
             st.granted += n
+            st.trigger = "window-adjust"
+        elif mt == MSG_CLOSE:
+            st.a_close_received = True
+            st.trigger = "peer-close"
+            st.flags.add("peer-closed-first" if not st.close_emitted else "peer-close-after-ours")
         st.A.packetReceived(mt, payload)
     else:
         raise ValueError(ev)
@@ -318,15 +352,19 @@ def apply(st, ev):
 def enabled(st):
     evs = []
     lim = st.limits
-    a_open = not st.close_requested
+    a_open = not st.close_requested and not st.a_close_received
     if a_open and st.nwrites < lim["writes"]:
-        evs.extend(WRITE_EVENTS)
+        evs.extend(lim.get("write_events", WRITE_EVENTS))
+        if not st.chA.armed:
+            evs.append(("arm", 2))
     if a_open:
         evs.append(("close",))
     if st.headAB < len(st.logAB):
         evs.append(("dAB",))
     if st.headBA < len(st.logBA):
         evs.append(("dBA",))
+    if not st.b_close_sent():
+        evs.append(("bclose",))
     if st.nadj < lim["adj"] and not st.b_close_received and not st.b_close_sent():
         evs.extend(ADJ_EVENTS)
     return evs
@@ -360,7 +398,8 @@ def canon(st):
         bool(ga(a, "areWriting", 1)),
         ga(b, "localWindowLeft", None), bool(ga(b, "localClosed", 0)), bool(ga(b, "remoteClosed", 0)),
         _shape(st.logAB[st.headAB:]), _shape(st.logBA[st.headBA:]),
-        st.ref_window, st.nwrites, st.nadj, st.close_requested, st.close_emitted,
+        st.ref_window, st.nwrites, st.nadj, st.close_requested, st.close_emitted, st.chA.armed, st.a_close_received,
+        st.b_close_requested,
         tuple(len(st.written[k]) - len(st.emitted[k]) for k in ("d", "e1", "e2")),
         # granted vs written decides the quiescence demand: keep the surplus/deficit
         st.granted - sum(len(v) for v in st.written.values()),
@@ -370,14 +409,14 @@ def canon(st):
 def limits(tier, win=1):
     # manual adjustWindow events: 2 where the receiver never replenishes on its own (window 1), else 1 in quick
     if tier == "quick":
-        return {"writes": 3, "adj": 2 if win == 1 else 1, "depth": 8}
+        return {"writes": 3, "adj": 2 if win == 1 else 1, "depth": 8, "write_events": QUICK_WRITE_EVENTS}
     return {"writes": 4, "adj": 2, "depth": 10}
 
 
 FIRST_GROUPS = [
     [("w", 1), ("w", 3), ("w", 5)],
     [("x", 1, 1), ("x", 1, 3), ("x", 2, 1), ("x", 2, 3)],
-    [("close",), ("adj", 1), ("adj", 2)],
+    [("close",), ("adj", 1), ("adj", 2), ("arm", 2), ("bclose",)],
 ]
 
 
